@@ -25,6 +25,11 @@ os.environ.setdefault("PYTHONHASHSEED", "0")
 warnings.filterwarnings("ignore")
 
 import numpy as np  # noqa: E402
+try:
+    from pymoo.config import Config
+    Config.warnings["not_compiled"] = False
+except Exception:
+    pass
 
 import audit  # noqa: E402
 import proto  # noqa: E402
@@ -40,7 +45,11 @@ def load_known():
 
 
 def comp_module(name):
-    return importlib.import_module(PLAN.COMPONENTS[name])
+    spec = PLAN.COMPONENTS[name]
+    if ":" in spec:
+        m, c = spec.split(":")
+        return getattr(importlib.import_module(m), c)
+    return importlib.import_module(spec)
 
 
 def _run_chunk(args):
@@ -276,8 +285,9 @@ def main_check(pid, tier, seed, write_evidence=True):
         if k is not None:
             known_hits.setdefault(k["id"], [k, 0])[1] += 1
             continue
-        key = (comp, v[0].split(":")[0][:60])
-        if key in reported:
+        import re as _re
+        key = (comp, _re.sub(r"[-+]?[0-9][0-9.e+-]*", "#", v[0])[:50])
+        if key in reported or len(reported) >= 3:
             n_viol += 1
             continue
         reported.add(key)
